@@ -100,7 +100,13 @@ func (c *cache) flushScheduler() {
 					case <-c.closeCh:
 						return
 					}
-					b = sortedAddrs[i:i]
+					// the next batch starts after the current address if it has
+					// just been sent with this one
+					start := i
+					if handledAddr {
+						start = i + 1
+					}
+					b = sortedAddrs[start:start]
 					bs = 0
 				}
 				if handledAddr {
